@@ -27,7 +27,9 @@ RULE = ("(a) pairs of affine shape expressions c0 + c1*n + c2*m (+ c3*k) with "
         "parameters in the thorough tier.  (b) programs over placeholders "
         "whose axes are affine forms (n, m, n+1, 2n, n+m, static), using "
         "elementwise operations with broadcasting, where, transpose, roll, "
-        "stack, einsum, reductions over static axes, zeros/full: every node's "
+        "stack, einsum (also reducing several symbolic axes), pad, "
+        "expand_dims, integer indexing of provably long axes, reductions over"
+        " static axes, zeros/full: every node's "
         "shape evaluated at every valuation in 1..6 per parameter equals "
         "NumPy's shape of the concrete program; operand combinations are "
         "accepted exactly when the forms are identically equal or 1 (also "
@@ -210,7 +212,8 @@ def sym_programs(draw):
     for _ in range(nops):
         kind = draw(st.sampled_from(["bin", "bin", "un", "T", "roll", "stack",
                                      "einsum", "red", "ctor", "where",
-                                     "bad", "alt", "esum", "esum"]))
+                                     "bad", "alt", "esum", "esum", "pad",
+                                     "expand", "pick"]))
         i = draw(st.sampled_from([j for j, s in enumerate(shapes)
                                   if s is not None]))
         sh = shapes[i]
@@ -256,6 +259,42 @@ def sym_programs(draw):
                                                       else [])
             add({"op": "einsum", "args": [i, j], "spec": f"{a},{b}->{out}"},
                 osh)
+        elif kind == "pad":
+            if not sh:
+                continue
+            widths = [[draw(st.integers(0, 2)), draw(st.integers(0, 2))]
+                      for _ in sh]
+            # padded axes get new lengths: keep them expressible
+            PADDED = {("n", 1): "n+1", ("m", 2): "m+2", ("1", 1): "2",
+                      ("1", 2): "3", ("2", 1): "3", ("n", 0): "n", ("m", 0): "m",
+                      ("n+1", 0): "n+1", ("2n", 0): "2n", ("n+m", 0): "n+m",
+                      ("3", 0): "3", ("1", 0): "1", ("2", 0): "2",
+                      ("m+2", 0): "m+2"}
+            osh = []
+            for ax, w in zip(sh, widths):
+                tot = w[0] + w[1]
+                if (ax, tot) not in PADDED:
+                    w[0] = w[1] = 0
+                    tot = 0
+                osh.append(PADDED[(ax, tot)])
+            add({"op": "pad", "args": [i], "widths": widths,
+                 "value": draw(st.integers(-2, 2)) / 2}, osh)
+        elif kind == "expand":
+            if len(sh) >= 3:
+                continue
+            ax = draw(st.integers(0, len(sh)))
+            add({"op": "expand", "args": [i], "axis": ax},
+                sh[:ax] + ["1"] + sh[ax:])
+        elif kind == "pick":
+            # integer index into an axis that is provably long enough
+            ok = [(d, a) for d, a in enumerate(sh)
+                  if a in ("n+1", "m+2", "2", "3", "1")]
+            if not ok:
+                continue
+            d, a = draw(st.sampled_from(ok))
+            hi = {"n+1": 0, "m+2": 1, "2": 1, "3": 2, "1": 0}[a]
+            add({"op": "pick", "args": [i], "axis": d,
+                 "index": draw(st.integers(0, hi))}, sh[:d] + sh[d + 1:])
         elif kind == "esum":
             # einsum reducing any non-empty subset of (symbolic) axes, of one
             # operand or of the product of two operands of the same shape
@@ -379,6 +418,13 @@ def build_sym(desc, names=None):
             env.append(pt.einsum(nd["spec"], a[0], a[1]))
         elif op == "einsum1":
             env.append(pt.einsum(nd["spec"], a[0]))
+        elif op == "pad":
+            env.append(pt.pad(a[0], tuple(tuple(w) for w in nd["widths"]),
+                              constant_values=nd["value"]))
+        elif op == "expand":
+            env.append(pt.expand_dims(a[0], nd["axis"]))
+        elif op == "pick":
+            env.append(a[0][(slice(None),) * nd["axis"] + (nd["index"],)])
         elif op in ("sum", "amax"):
             env.append(getattr(pt, op)(a[0], axis=nd["axis"]))
         elif op == "zeros":
@@ -454,6 +500,13 @@ def eval_sym(desc, val):
                 env.append(np.einsum(nd["spec"], a[0], a[1]))
             elif op == "einsum1":
                 env.append(np.einsum(nd["spec"], a[0]))
+            elif op == "pad":
+                env.append(np.pad(a[0], nd["widths"],
+                                  constant_values=nd["value"]))
+            elif op == "expand":
+                env.append(np.expand_dims(a[0], nd["axis"]))
+            elif op == "pick":
+                env.append(a[0][(slice(None),) * nd["axis"] + (nd["index"],)])
             elif op in ("sum", "amax"):
                 env.append(getattr(np, op)(a[0], axis=nd["axis"]))
             elif op == "zeros":
